@@ -269,11 +269,12 @@ func runHostile(o *opts) {
 		reject bool
 	}{
 		{"../neighbour/h.yaml", true}, {"sp.yaml ", true}, {" lead.yaml", true}, {"sub/../../neighbour/h.yaml", true},
-		{"in ner.yaml", false}, {"sub/back2.yaml", false}, {"..dots.yaml", false},
+		{"in ner.yaml", false}, {"sub/back2.yaml", false}, {"..dots.yaml", false}, {"...yaml", false}, {"..staging/s.yaml", false},
 	} {
 		p, skip := newProj()
 		must(os.MkdirAll(filepath.Join(p.Root, "sub"), 0o755))
 		must(os.WriteFile(filepath.Join(p.Root, "extra.txt"), []byte("extra"), 0o644))
+		must(os.MkdirAll(filepath.Dir(filepath.Join(p.Root, sf.name)), 0o755))
 		must(os.WriteFile(filepath.Join(p.Root, sf.name), []byte("outputs:\n  extra.txt: {}\n"), 0o644))
 		p.StageFs = append(p.StageFs, sf.name)
 		sp := want(20, 13)
@@ -284,7 +285,11 @@ func runHostile(o *opts) {
 		}
 		t := run(p, skip, Cmd{Kind: "stageadd", Targets: []string{sf.name}}, sp, "stage add of an unusual stage path", map[string]interface{}{"stage_path": sf.name})
 		// whatever stage add did, the index it left behind loads
-		run(p, skip, Cmd{Kind: "status"}, want(20, 13), "status after stage add of an unusual stage path", map[string]interface{}{"stage_path": sf.name, "stage_add_ok": t.OK})
+		ssp := want(20, 13)
+		if t.OK {
+			ssp = want(20, 13, 11) // what stage add accepted, the next command loads
+		}
+		run(p, skip, Cmd{Kind: "status"}, ssp, "status after stage add of an unusual stage path", map[string]interface{}{"stage_path": sf.name, "stage_add_ok": t.OK})
 		if t.OK {
 			run(p, skip, Cmd{Kind: "commit"}, want(11, 20, 13), "commit after stage add of an unusual stage path", map[string]interface{}{"stage_path": sf.name})
 		}
